@@ -329,3 +329,22 @@ Proof.
   - intros i o l Li Hi Hl. apply nth_error_lt in Hi. vm_compute in Hi. vm_compute in Li. lia.
   - eexists. split; [apply nth_error_app_new|]. split; [reflexivity|]. intros k x _ [].
 Qed.
+
+(* ---- hypotheses of linker_copy_independent_ops are satisfiable: the linker WITH its nested submodels as one root (the two
+   models are reachable only through it), both classes as further roots; then BaseLinker.copy, a linker solve, writes into a
+   submodel of the copy, a list mutation in a submodel of the original, a class mutation: nothing is shared at the end *)
+Definition s_lk1 : state := mkSt (sh s_lk) [4%nat; 8%nat; lk_root].
+
+Definition linker_history : list hevent :=
+  [HOps 3 (linker_solve_ops 1 [(601, [(201, 7)]); (603, [(201, 9)])] 2 123 4);
+   HOps 3 [OSubSetItem 601 203 0 11; OSubListAppend 603 N_check 205];
+   HOps 2 [OSubListAppend 601 N_names 777; OListAppend N_check 779];
+   HOps 0 [OListAppend C_CHECK 205]].
+
+Example ex_linker_state_ok :
+  roots_ok s_lk1 /\ nth_error (sroots s_lk1) 2 = Some lk_root /\ forallb hevent_ok linker_history = true /\
+  length (sroots (run_event K0 s_lk1 (ELinkerCopy 2))) = 4%nat /\
+  sharing (run_hevents K0 (run_event K0 s_lk1 (ELinkerCopy 2)) linker_history) = [].
+Proof.
+  split; [apply roots_okb_sound; vm_compute; reflexivity|]. vm_compute. repeat split; reflexivity.
+Qed.
